@@ -173,6 +173,14 @@ def dimension_cases() -> list[tuple[str, str, str]]:
                     # equal numbers, inequivalent dimensions: must fail
                     got = outcome(lambda: fn(Quantity(v * x), Quantity(v * y)))
                     out.append((f"dim-inequivalent:{fname}:{tag}:{v}", FAIL, judge(FAIL, got)))
+                    # the optional `dimension` argument (meant for bare numbers) must not
+                    # re-label an operand that is a quantity of another dimension
+                    if isinstance(v, float):
+                        for which, qd in (("lhs", Quantity(v * x)), ("rhs", Quantity(v * y))):
+                            got = outcome(lambda: fn(Quantity(v * x), Quantity(v * y),
+                                dimension=qd.dimension))
+                            out.append((f"dim-inequivalent-keyword:{fname}:{tag}:{which}:{v}", FAIL,
+                                judge(FAIL, got)))
                     # zero values as well: 0 m is not 0 s for the oracle?  zero matches any
                     # dimension in the gate, so this case is left open
         # exponent grid: the same base raised to every pair of exponents (exact and floating
